@@ -66,6 +66,9 @@ pub struct SeqSpec {
     pub wall_cap: Duration,
     /// run C16 argument-grid probes at every state
     pub grid_probes: bool,
+    /// additional start states: symbol sequences of the Legal alphabet,
+    /// instantiated on the model; the search continues from each of them
+    pub roots: Vec<Vec<&'static str>>,
 }
 
 #[derive(Default)]
@@ -1061,6 +1064,26 @@ pub fn search(spec: &SeqSpec, rep: &Reporter, phase: usize) -> SeqResult {
         reopens: 0,
         refused: 0,
     }];
+    for root in &spec.roots {
+        let mut m = RefLog::new();
+        let mut hist = vec![];
+        let mut ok = true;
+        for sym in root {
+            match alphabet::legal(&m, Alpha::Legal).into_iter().find(|(n, _)| n == sym) {
+                Some((_, op)) => {
+                    m.apply(&op);
+                    hist.push(op);
+                }
+                None => {
+                    ok = false;
+                    break;
+                }
+            }
+        }
+        if ok {
+            frontier.push(Node { hist, model: m, reopens: 0, refused: 0 });
+        }
+    }
     let mut per_depth = vec![];
     let mut depth_completed = 0;
     let mut cap_hit = false;
